@@ -371,6 +371,7 @@ func (g *gen) genC16() {
 		g.add(&funcs.Class{Prop: "C16", Kind: "joine", Tag: "errty:result:" + et, Outs: g.types(1+i%2, true), ErrTy: et, ErrAt: "result"})
 		g.add(&funcs.Class{Prop: "C16", Kind: "joine", Tag: "errty:arg:" + et, Outs: g.types(1+i%2, true), ErrTy: et, ErrAt: "arg"})
 		g.add(&funcs.Class{Prop: "C16", Kind: "toerror", Tag: "errty:" + et, Ps: g.params(naming("named", 1+i%2)), Rs: g.types(i%3, false), ErrTy: et, ErrAt: "arg"})
+		g.add(&funcs.Class{Prop: "C16", Kind: "toerror", Tag: "errty:" + et, Ps: g.params(naming("blankmix", 2+i%2)), Rs: g.types((i+1)%3, false), ErrTy: et, ErrAt: "arg"})
 	}
 	// ---- toerror
 	for _, s := range []string{"named", "blankall", "blankmix", "unnamed", "f0", "err0", "prefixblank", "gennames"} {
